@@ -234,6 +234,8 @@ def gen_tree(rng, feats=None, depth=0):
         if r < 0.2 or ("links" in feats and d == ""):
             tgt = files_here[0]
             blocks = "Name=Renamed %s\nPath=./%s\nNumb=1\n\nName=Elsewhere\nType=1\nPath=/other\nHost=other.example\nPort=7070\n" % (tgt, tgt)
+            blocks += "\nName=Site file\nType=0\nPath=/outside.txt\n\nName=Site file, gone\nType=0\nPath=/no/such/file.txt\n" \
+                      "\nName=Another archive\nType=1\nPath=/other.zip\n"
             if len(files_here) > 1 and rng.random() < 0.5:
                 blocks += "\nType=X\nPath=./%s\n" % files_here[1]
             add({"path": join(d, rng.choice([".Links", ".names"])), "kind": "file", "data": to_raw(blocks), "flag": flag_for(d)})
@@ -242,7 +244,11 @@ def gen_tree(rng, feats=None, depth=0):
             below = [e["path"] for e in ents if e["kind"] == "file" and (e["path"].startswith(d + "/") if d else True)
                      and e["path"] != join(d, tgt)]
             lines = ["0Relative %s\t%s" % (tgt, tgt), "1Other host\t/x\tother.example\t7070", "0Missing\tnot-there.txt",
-                     "hURL\tURL:http://example.org/"]
+                     "hURL\tURL:http://example.org/",
+                     # entries that point OUT of the tree / archive: site selectors (there, not there), another
+                     # archive of the site and something in it, the site's top
+                     "0Site file\t/outside.txt", "0Site file, gone\t/no/such/file.txt", "1Another archive\t/other.zip",
+                     "0In another archive\t/other.zip/inner.txt", "1Top of the site\t/", "hShort URL\tURL:ab"]
             for bp in rng.sample(below, min(3, len(below))):
                 relp = bp[len(d) + 1:] if d else bp
                 lines.append("0Deeper %s\t%s" % (relp.split("/")[-1], relp))
@@ -578,17 +584,15 @@ def mutate_tree(tree, rng):
 
 
 def containers(rng, n):
-    """how the archive file comes into being: who writes it and what happens to it afterwards"""
-    base = [{"writer": "zipfile"}, {"writer": "raw"}, {"writer": "infozip"},
-            {"writer": "raw", "descriptor": True, "comment": True}, {"writer": "infozip", "store_all": True},
-            {"writer": "raw", "store_all": True, "sfx": True}, {"writer": "infozip", "zip64": True}, {"writer": "infozip", "descriptor": True, "store_all": True},
-            {"writer": "zipfile", "sfx": True, "comment": True}, {"writer": "infozip", "comment": True, "sfx": True}]
-    out = []
-    while len(out) < n:
-        b = base[:]
-        rng.shuffle(b)
-        out.extend(b)
-    return out[:n]
+    """how the archive file comes into being: who writes it and what happens to it afterwards.
+    The list is walked in order (rotated per run), its first four already cover every writer, a
+    self-extractor stub, a comment, data descriptors and store-only"""
+    base = [{"writer": "infozip", "comment": True, "sfx": True}, {"writer": "raw", "descriptor": True, "comment": True},
+            {"writer": "zipfile", "sfx": True}, {"writer": "infozip", "store_all": True, "descriptor": True},
+            {"writer": "raw", "store_all": True, "sfx": True}, {"writer": "infozip", "zip64": True},
+            {"writer": "zipfile", "comment": True}, {"writer": "infozip"}, {"writer": "raw"}, {"writer": "zipfile"}]
+    k = rng.randrange(4) if n >= len(base) else 0
+    return [base[(k + i) % len(base)] for i in range(n)]
 
 
 def degenerate_trees():
